@@ -32,6 +32,7 @@ def build_harness():
     ensure_dirs()
     env = dict(os.environ, CARGO_NET_OFFLINE="true")
     t0 = time.time()
+    _fresh_or_clean("harness", os.path.join(VERIF, "harness"), env, ["--release"])
     r = subprocess.run(["cargo", "build", "--release", "--offline", "--quiet"], cwd=os.path.join(VERIF, "harness"),
                        env=env, capture_output=True, text=True)
     if r.returncode != 0:
@@ -40,12 +41,42 @@ def build_harness():
     return time.time() - t0
 
 
+def _repo_stamp():
+    h = hashlib.sha256()
+    for root in (os.path.join(REPO, "src"),):
+        for dp, dn, fn in sorted(os.walk(root)):
+            dn.sort()
+            for n in sorted(fn):
+                p = os.path.join(dp, n)
+                h.update(p.encode())
+                with open(p, "rb") as f:
+                    h.update(f.read())
+    for n in ("Cargo.toml", "Cargo.lock"):
+        with open(os.path.join(REPO, n), "rb") as f:
+            h.update(f.read())
+    h.update(REPO.encode())
+    return h.hexdigest()
+
+
+def _fresh_or_clean(name, cwd, env, extra):
+    """Do not trust mtimes alone: when the content of the repository differs from what the last build of this
+    target saw, drop the stylua artefacts so that they are rebuilt from the current working tree."""
+    stamp_p = os.path.join(BUILD, name + ".stamp")
+    cur = _repo_stamp()
+    old = open(stamp_p).read() if os.path.exists(stamp_p) else ""
+    if old != cur:
+        subprocess.run(["cargo", "clean", "--offline", "-p", "stylua"] + extra, cwd=cwd, env=env, capture_output=True, text=True)
+        with open(stamp_p, "w") as f:
+            f.write(cur)
+
+
 def build_cli():
     """Build /repo's stylua binary with the verification hooks enabled into build/target-cli."""
     ensure_dirs()
     env = dict(os.environ, CARGO_NET_OFFLINE="true",
                RUSTFLAGS="--cfg stylua_verif --check-cfg cfg(stylua_verif)",
                CARGO_TARGET_DIR=os.path.join(BUILD, "target-cli"))
+    _fresh_or_clean("cli", REPO, env, [])
     r = subprocess.run(["cargo", "build", "--offline", "--quiet", "--bin", "stylua",
                         "--features", "luau,lua52,lua53,lua54,luajit"], cwd=REPO, env=env, capture_output=True, text=True)
     if r.returncode != 0:
